@@ -9,6 +9,7 @@ import (
 	"errors"
 	"fmt"
 	"reflect"
+	"regexp"
 	"strconv"
 	"sync"
 	"time"
@@ -123,6 +124,18 @@ func (u *UFloat) Unpack(f float64) error {
 		return err
 	}
 	u.F = f + 1
+	return nil
+}
+
+// UUint implements UintUnpacker.
+type UUint struct{ U uint64 }
+
+// Unpack records the value.
+func (u *UUint) Unpack(n uint64) error {
+	if err := cb.hit("Unpack", "UUint", n, true); err != nil {
+		return err
+	}
+	u.U = n + 3
 	return nil
 }
 
@@ -256,24 +269,32 @@ const (
 	KPI
 	KPSInt
 	KPDur
+	KUUint
+	KSUStr
+	KSUCfg
+	KSMap
+	KRegex
 	kindCount
 )
 
 var kindNames = [...]string{"int", "int8", "uint16", "float64", "string", "bool", "duration", "*int", "*string", "VInt", "VStr",
 	"UStr", "UInt", "UBool", "UFloat", "UAny", "UCfg", "[]int", "[]string", "[]VInt", "[2]int", "map[string]int", "map[string]interface{}",
-	"interface{}", "*Config", "DInt", "Inner", "*Inner", "struct", "*struct", "[]struct", "map[string]struct", "inline-struct", "float32", "map[string][]int", "map[string]VInt", "PI", "*[]int", "*duration"}
+	"interface{}", "*Config", "DInt", "Inner", "*Inner", "struct", "*struct", "[]struct", "map[string]struct", "inline-struct", "float32", "map[string][]int", "map[string]VInt", "PI", "*[]int", "*duration", "UUint", "[]UStr", "[]UCfg", "[]map[string]int", "*regexp"}
 
 func (k Kind) String() string { return kindNames[k] }
 
 var (
 	tIface = reflect.TypeOf((*interface{})(nil)).Elem()
 	tCfg   = reflect.TypeOf((*ucfg.Config)(nil))
+	tRegex = reflect.TypeOf((*regexp.Regexp)(nil))
 )
 
 var leafTypes = map[Kind]reflect.Type{
 	KInt: reflect.TypeOf(int(0)), KInt8: reflect.TypeOf(int8(0)), KUint16: reflect.TypeOf(uint16(0)), KF64: reflect.TypeOf(float64(0)),
 	KStr: reflect.TypeOf(""), KBool: reflect.TypeOf(false), KDur: reflect.TypeOf(time.Duration(0)), KF32: reflect.TypeOf(float32(0)), KMSlice: reflect.TypeOf(map[string][]int(nil)),
 	KPDur:  reflect.TypeOf((*time.Duration)(nil)),
+	KUUint: reflect.TypeOf(UUint{}), KSUStr: reflect.TypeOf([]UStr(nil)), KSUCfg: reflect.TypeOf([]UCfg(nil)),
+	KSMap: reflect.TypeOf([]map[string]int(nil)), KRegex: tRegex,
 	KMVInt: reflect.TypeOf(map[string]VInt(nil)), KPI: reflect.TypeOf(PI(0)), KPSInt: reflect.TypeOf((*[]int)(nil)),
 	KPInt: reflect.TypeOf((*int)(nil)), KPStr: reflect.TypeOf((*string)(nil)),
 	KVInt: reflect.TypeOf(VInt(0)), KVStr: reflect.TypeOf(VStr("")),
